@@ -53,11 +53,9 @@ def utils_IntMin (a : Int) (b : Int) : Option Int := do
   else
     pure b
 
-/-- utils/funcs.go:185 -/
-def utils_GetHmsBySeconds (second : Int) : Option GoSem.HMS := do
-  pure ({ Hour := (GoSem.u8 (Int.tdiv second 3600)), Minute := (GoSem.u8 (Int.tmod (Int.tdiv second 60) 60)), Second := (GoSem.u8 (Int.tmod second 60)) } : GoSem.HMS)
+-- NOT TRANSLATED: utils_GetHmsBySeconds (utils/funcs.go:199): zero value of github.com/ilius/libgostarcal.HMS
 
-/-- utils/funcs.go:53 -/
+/-- utils/funcs.go:67 -/
 def utils_MonthListIsValid (list : (List Int)) : Option Bool := do
   let _r1 ← GoSem.forRange list (fun v => do
       if (!((decide (v > 0)) && (decide (v < 13)))) then
@@ -70,7 +68,7 @@ def utils_MonthListIsValid (list : (List Int)) : Option Bool := do
   | none =>
     pure true
 
-/-- utils/funcs.go:62 -/
+/-- utils/funcs.go:76 -/
 def utils_DayListIsValid (list : (List Int)) : Option Bool := do
   let _r1 ← GoSem.forRange list (fun v => do
       if (!((decide (v > 0)) && (decide (v < 40)))) then
@@ -83,7 +81,7 @@ def utils_DayListIsValid (list : (List Int)) : Option Bool := do
   | none =>
     pure true
 
-/-- utils/funcs.go:71 -/
+/-- utils/funcs.go:85 -/
 def utils_WeekDayListIsValid (list : (List Int)) : Option Bool := do
   let _r1 ← GoSem.forRange list (fun v => do
       if (!((decide (v ≥ 0)) && (decide (v < 7)))) then
@@ -96,33 +94,35 @@ def utils_WeekDayListIsValid (list : (List Int)) : Option Bool := do
   | none =>
     pure true
 
-/-- hms.go:35 -/
+/-- hms.go:60 -/
 def lib_GetTotalSeconds (hms : GoSem.HMS) : Option Int := do
-  pure ((((hms).Hour * 3600) + ((hms).Minute * 60)) + (hms).Second)
+  let minutes := (((hms).Hour * 60) + (hms).Minute)
+  pure ((minutes * 60) + (hms).Second)
 
-/-- hms.go:39 -/
+/-- hms.go:65 -/
 def lib_GetFloatHour (hms : GoSem.HMS) : Option Rat := do
-  pure (((((hms).Hour : Int) : Rat) + ((((hms).Minute : Int) : Rat) / ((60 : Rat) / 1))) + ((((hms).Second : Int) : Rat) / ((3600 : Rat) / 1)))
+  let _t1 := (((hms).Hour : Int) : Rat)
+  let _t2 := (((hms).Minute : Int) : Rat)
+  let _t3 := (((hms).Second : Int) : Rat)
+  let h := _t1
+  let m := _t2
+  let s := _t3
+  pure ((h + (m / ((60 : Rat) / 1))) + (s / ((3600 : Rat) / 1)))
 
-/-- hms.go:137 -/
-def lib_FloatHourToHMS (fh : Rat) : Option GoSem.HMS := do
-  let total := (GoSem.ftoi ((Rat.floor ((fh * ((3600 : Rat) / 1)) + ((1 : Rat) / 2)) : Int) : Rat))
-  pure ({ Hour := (GoSem.u8 (Int.tdiv total 3600)), Minute := (GoSem.u8 (Int.tmod (Int.tdiv total 60) 60)), Second := (GoSem.u8 (Int.tmod total 60)) } : GoSem.HMS)
+-- NOT TRANSLATED: lib_FloatHourToHMS (hms.go:193): call of github.com/ilius/libgostarcal.splitBy (not in the list of translated functions)
 
-/-- date.go:49 -/
+/-- date.go:56 -/
 def lib_toUint8 (v : Int) : Option Int := do
-  if ((decide (v < 0)) || (decide (v > 255))) then
+  if (decide ((GoSem.u64 v) > 255)) then
     pure 255
   else
     pure (GoSem.u8 v)
 
-/-- hms.go:43 -/
-def lib_HMS_IsValid (hms : GoSem.HMS) : Option Bool := do
-  pure (((decide ((hms).Hour < 24)) && (decide ((hms).Minute < 60))) && (decide ((hms).Second < 60)))
+-- NOT TRANSLATED: lib_HMS_IsValid (hms.go:70): statement *ast.SwitchStmt
 
-/-- date.go:43 -/
+/-- date.go:49 -/
 def lib_Date_IsValid (date : GoSem.Date) : Option Bool := do
-  pure ((((decide ((date).Month > 0)) && (decide ((date).Month < 13))) && (decide ((date).Day > 0))) && (decide ((date).Day < 40)))
+  pure ((decide ((GoSem.u8 ((date).Month - 1)) < 12)) && (decide ((GoSem.u8 ((date).Day - 1)) < 39)))
 
 /-- interval/interval.go:171 -/
 def interval_Less (p : (List interval_IntervalPoint)) (i : Int) (j : Int) : Option Bool := do
@@ -527,6 +527,6 @@ def hijri_GetMonthLen (year : Int) (month : Int) : Option Int := do
       pure 29
 
 /-- the functions translated on this run -/
-def translated : List String := ["utils_Mod", "utils_Div", "utils_Divmod", "utils_IntMin", "utils_GetHmsBySeconds", "utils_MonthListIsValid", "utils_DayListIsValid", "utils_WeekDayListIsValid", "lib_GetTotalSeconds", "lib_GetFloatHour", "lib_FloatHourToHMS", "lib_toUint8", "lib_HMS_IsValid", "lib_Date_IsValid", "interval_Less", "julian_IsLeap", "julian_getYearDays", "julian_getMonthDayFromYdays", "julian_ToJd", "julian_JdTo", "julian_GetMonthLen", "jalali_IsLeap", "jalali_getMonthDayFromYdays", "jalali_ToJd", "jalali_JdTo", "jalali_GetMonthLen", "ethiopian_IsLeap", "ethiopian_ToJd", "ethiopian_JdTo", "ethiopian_GetMonthLen", "gprol_IsLeap", "gprol_ToJd", "gprol_JdTo", "gprol_GetMonthLen", "indian_IsLeap", "indian_ToJd", "indian_JdTo", "indian_GetMonthLen", "hijri_IsLeap", "hijri_ToJd", "hijri_JdTo", "hijri_GetMonthLen"]
+def translated : List String := ["utils_Mod", "utils_Div", "utils_Divmod", "utils_IntMin", "utils_MonthListIsValid", "utils_DayListIsValid", "utils_WeekDayListIsValid", "lib_GetTotalSeconds", "lib_GetFloatHour", "lib_toUint8", "lib_Date_IsValid", "interval_Less", "julian_IsLeap", "julian_getYearDays", "julian_getMonthDayFromYdays", "julian_ToJd", "julian_JdTo", "julian_GetMonthLen", "jalali_IsLeap", "jalali_getMonthDayFromYdays", "jalali_ToJd", "jalali_JdTo", "jalali_GetMonthLen", "ethiopian_IsLeap", "ethiopian_ToJd", "ethiopian_JdTo", "ethiopian_GetMonthLen", "gprol_IsLeap", "gprol_ToJd", "gprol_JdTo", "gprol_GetMonthLen", "indian_IsLeap", "indian_ToJd", "indian_JdTo", "indian_GetMonthLen", "hijri_IsLeap", "hijri_ToJd", "hijri_JdTo", "hijri_GetMonthLen"]
 
 end Starcal.Gen.Src
